@@ -87,9 +87,11 @@ const (
 	lfNoItems    listFault = "noitems"    // a meta.List without an Items field
 	lfNonObjects listFault = "nonobjects" // a list whose items are not API objects
 	lfMixed      listFault = "mixed"      // a list with valid objects and one item that is not an API object
+	lfNilItems   listFault = "nilitems"   // a generic list whose entries are empty (no object, no raw bytes)
+	lfMixedNil   listFault = "mixednil"   // valid objects and one empty entry
 )
 
-var allListFaults = []listFault{lfError, lfNilNil, lfNonList, lfNoItems, lfNonObjects, lfMixed}
+var allListFaults = []listFault{lfError, lfNilNil, lfNonList, lfNoItems, lfNonObjects, lfMixed, lfNilItems, lfMixedNil}
 
 // noItemsList implements runtime.Object and metav1.ListInterface but has no Items.
 type noItemsList struct {
@@ -328,6 +330,13 @@ func (a *fakeAPI) faultResult(f listFault) (runtime.Object, error) {
 		return &noItemsList{ListMeta: metav1.ListMeta{ResourceVersion: "1"}}, nil
 	case lfNonObjects:
 		return &metav1.List{ListMeta: metav1.ListMeta{ResourceVersion: "1"}, Items: []runtime.RawExtension{{Object: &runtime.Unknown{}}}}, nil
+	case lfNilItems:
+		return &metav1.List{ListMeta: metav1.ListMeta{ResourceVersion: "1"}, Items: []runtime.RawExtension{{}, {}}}, nil
+	case lfMixedNil:
+		return &metav1.List{ListMeta: metav1.ListMeta{ResourceVersion: "1"}, Items: []runtime.RawExtension{
+			{Object: &corev1.Pod{ObjectMeta: metav1.ObjectMeta{Namespace: "a", Name: "valid1", ResourceVersion: "1"}}},
+			{},
+		}}, nil
 	case lfMixed:
 		return &metav1.List{ListMeta: metav1.ListMeta{ResourceVersion: "1"}, Items: []runtime.RawExtension{
 			{Object: &corev1.Pod{ObjectMeta: metav1.ObjectMeta{Namespace: "a", Name: "valid1", ResourceVersion: "1"}}},
